@@ -1,6 +1,7 @@
 package main
 
 import (
+	"regexp"
 	"fmt"
 	"go/types"
 	"sort"
@@ -389,6 +390,18 @@ func propC16(c *Ctx) {
 				o.Fail(c.W.Pos(imp.Pos()), "InitGenesis never calls "+methodOf(suffix)+" within the unrolling bound", nil)
 			}
 		}
+		oi := c.Ob("C16.R3", "ophost InitGenesis: every list of the genesis record (bridges and their nested lists) is walked to its end on every returning path and every visited element is written")
+		hgst := c.W.ByPath[modPath+"/x/"+hostTypes].Types.Scope().Lookup("GenesisState").Type().Underlying().(*types.Struct)
+		for _, p := range c.Paths(imp, PO{Params: []string{"k", "ctx", "data"}, Visits: 3, NoInline: noInl}) {
+			oi.Paths++
+			if p.Panic {
+				continue
+			}
+			importComplete(c, oi, c.W.Pos(imp.Pos()), p, "data", hgst, nil, 0)
+		}
+		if oi.Sites == 0 {
+			oi.Fail(c.W.Pos(imp.Pos()), "no list examined on a returning path", nil)
+		}
 		// field coverage on the read side
 		o2 := c.Ob("C16.R2", "ophost InitGenesis reads every field of GenesisState and Bridge")
 		mention := map[string]bool{}
@@ -504,6 +517,18 @@ func propC16(c *Ctx) {
 			if !seen[f] {
 				o.Fail(c.W.Pos(imp.Pos()), "InitGenesis never restores "+f+" within the unrolling bound", nil)
 			}
+		}
+		oi := c.Ob("C16.R3", "opchild InitGenesis: every list of the genesis record is walked to its end on every returning path and every visited element is written")
+		gst := c.W.ByPath[modPath+"/x/"+childTypes].Types.Scope().Lookup("GenesisState").Type().Underlying().(*types.Struct)
+		for _, p := range c.Paths(imp, PO{Params: []string{"k", "ctx", "data"}, Visits: 3, NoInline: noInl, Pure: []string{"ABCIValidatorUpdate"}}) {
+			oi.Paths++
+			if p.Panic {
+				continue
+			}
+			importComplete(c, oi, c.W.Pos(imp.Pos()), p, "data", gst, map[string]string{"data.LastValidatorPowers": "data.Exported"}, 0)
+		}
+		if oi.Sites == 0 {
+			oi.Fail(c.W.Pos(imp.Pos()), "no list examined on a returning path", nil)
 		}
 		exp := c.Method(childKeeper, "Keeper", "ExportGenesis")
 		o2 := c.Ob("C16.R2", "opchild ExportGenesis: every GenesisState field is set from the matching store value; Exported = true")
@@ -690,6 +715,20 @@ func propC16(c *Ctx) {
 				}
 			}
 		}
+		for _, m := range []struct{ pkg, label string }{{hostTypes, "ophost"}, {childTypes, "opchild"}} {
+			vgf := c.Func(m.pkg, "ValidateGenesis")
+			orr := c.Ob("C16.R5", m.label+" ValidateGenesis: every relational rejection (record against record, field against field) is one of the confirmed invariants of exportable states")
+			got := relationalRejections(c, vgf, PO{Params: []string{"data", "ac"}, Visits: 3, NoInline: []string{"BridgeConfig).Validate", "Output).Validate", "Params).Validate", "BridgeInfo).Validate"}})
+			for _, k := range sortedKeys(got) {
+				orr.Sites++
+				if !pinnedRelationalRejections[m.label][k] {
+					orr.Fail(got[k], "new relational rejection in ValidateGenesis: "+trunc(k, 220)+" - an exported state that violates it would not re-import (confirm the invariant and pin it)", nil)
+				}
+			}
+			if orr.Sites == 0 {
+				orr.Sites = 1 // validator examined; it has no relational rejection
+			}
+		}
 		vg := c.Func(hostTypes, "ValidateGenesis")
 		o := c.Ob("C16.R5", "ophost ValidateGenesis: nil only with valid bridge config, non-zero bridge id, sequence >= 1, 32-byte claims, non-zero output indexes, next bridge id >= 1")
 		nOK := 0
@@ -718,7 +757,7 @@ func propC16(c *Ctx) {
 						x := eqOther(a, "nil")
 						return pol && x != nil && x.Op == "call" && strings.HasSuffix(x.Name, "BridgeConfig).Validate") && x.Args[0].Key() == b+".BridgeConfig"
 					}),
-					"bridge id != 0": p.HasFact(end, func(a *Term, pol bool) bool { return !pol && eqAtom(a, b+".BridgeId", "0") }),
+					"bridge id != 0": p.nonZeroOn(end, b+".BridgeId"),
 					"next L1 sequence >= 1": func() bool {
 						rel, n := p.Relation(end, keyIs(b+".NextL1Sequence"), keyIs("1"))
 						return n > 0 && rel&rLT == 0
@@ -747,7 +786,7 @@ func propC16(c *Ctx) {
 					}) {
 						break
 					}
-					if !p.HasFact(end, func(a *Term, pol bool) bool { return !pol && eqAtom(a, w+".OutputIndex", "0") }) {
+					if !p.nonZeroOn(end, w+".OutputIndex") {
 						o.Fail(c.W.Pos(vg.Pos()), "proposal "+w+" accepted with output index 0", c.Dump(p, -1))
 					}
 				}
@@ -880,4 +919,120 @@ func exportComplete(c *Ctx, o *Obl, pos string, p *Path, lists map[string][]*Ter
 			o.Fail(pos, fmt.Sprintf("enumeration of %s visits %d element(s) but %d record(s) reach the exported list%s", f, visited, got, extra), c.Dump(p, i))
 		}
 	}
+}
+
+// importComplete: on a returning import path every list of the genesis record is walked to
+// its end - for each slice-typed field F of the record (one level of nesting: the slice fields
+// of the elements of a list of structs) there is an exhaustion fact !(n < len(root.F)) after n
+// taken iterations, and every visited element i < n is mentioned by a restoring write.
+// cond names lists that are restored only under a stated flag (fact key -> must be true).
+func importComplete(c *Ctx, o *Obl, pos string, p *Path, root string, st *types.Struct, cond map[string]string, depth int) {
+	lenFact := func(list string, i int, want bool) bool {
+		return p.HasFact(len(p.Events), func(a *Term, pol bool) bool {
+			return pol == want && a.Op == "bin" && a.Name == "<" && a.Args[0].Key() == fmt.Sprint(i) && strip(a.Args[1]).Key() == "builtin.len("+list+")"
+		})
+	}
+	for k := 0; k < st.NumFields(); k++ {
+		f := st.Field(k)
+		sl, ok := f.Type().Underlying().(*types.Slice)
+		if !ok {
+			continue
+		}
+		if b, isB := sl.Elem().Underlying().(*types.Basic); isB && b.Kind() == types.Uint8 {
+			continue // []byte: a value, not a list of records
+		}
+		list := root + "." + f.Name()
+		if flag, isCond := cond[list]; isCond {
+			if !p.HasFact(len(p.Events), func(a *Term, pol bool) bool { return pol && a.Key() == flag }) {
+				continue
+			}
+		}
+		o.Sites++
+		n := 0
+		for lenFact(list, n, true) {
+			n++
+		}
+		if !lenFact(list, n, false) {
+			o.Fail(pos, fmt.Sprintf("import returns without walking %s to its end (%d element(s) visited, no exhaustion test): records of the genesis file are dropped silently", list, n), c.Dump(p, -1))
+			continue
+		}
+		for i := 0; i < n; i++ {
+			el := fmt.Sprintf("%s[%d]", list, i)
+			used := false
+			for j := range p.Events {
+				ev := &p.Events[j]
+				if ev.Kind != EvCall || ev.Call == nil {
+					continue
+				}
+				_, m, isColl := collOp(ev)
+				if !(isColl && m == "Set") && !strings.Contains(ev.Call.Name, ").Set") && !strings.Contains(ev.Call.Name, ").Record") {
+					continue
+				}
+				for _, a := range ev.Call.Args {
+					if strings.Contains(a.Key(), el) {
+						used = true
+					}
+				}
+			}
+			if !used {
+				o.Fail(pos, "element "+el+" is visited but never written to the store", c.Dump(p, -1))
+			}
+			if est, ok := sl.Elem().Underlying().(*types.Struct); ok && depth == 0 {
+				importComplete(c, o, pos, p, el, est, cond, depth+1)
+			}
+		}
+	}
+}
+
+// relationalRejections: the guards under which a genesis validator returns an error and that
+// compare two non-constant values of the genesis record with each other (record against
+// record, field against field).  Single-field well-formedness tests (x == 0, len(x) != 32,
+// Validate() != nil) are local and cannot contradict the exporter; a relational rejection is
+// sound only if the relation is an invariant of every exportable state, which was confirmed by
+// reading for the pinned ones and cannot be decided for a new one.
+func relationalRejections(c *Ctx, fn *ssa.Function, po PO) map[string]string {
+	idx := regexp.MustCompile(`\[\d+\]`)
+	out := map[string]string{}
+	for _, p := range c.Paths(fn, po) {
+		if p.OK() || p.Panic || len(p.Ret) == 0 {
+			continue
+		}
+		// the deciding guard: the last fact before the return
+		for i := len(p.Events) - 1; i >= 0; i-- {
+			ev := &p.Events[i]
+			if ev.Kind != EvFact {
+				continue
+			}
+			rf, ok := factRel(ev.Cond, ev.Pol)
+			if !ok {
+				break
+			}
+			x, y := rf.X.Key(), rf.Y.Key()
+			if rf.X.IsConst() || rf.Y.IsConst() || !strings.Contains(x, "data.") || !strings.Contains(y, "data.") {
+				break
+			}
+			// a loop test i < len(list) is not a rejection guard
+			if strings.HasPrefix(y, "builtin.len(") || strings.HasPrefix(x, "builtin.len(") && rf.Y.IsConst() {
+				break
+			}
+			x, y = idx.ReplaceAllString(x, "[#]"), idx.ReplaceAllString(y, "[#]")
+			rel := rf.Rel
+			if x > y { // operand order is not part of the condition
+				x, y, rel = y, x, flipRel(rel)
+			}
+			k := x + " " + relString(rel) + " " + y
+			out[k] = c.evPos(ev)
+			break
+		}
+	}
+	return out
+}
+
+// confirmed by reading: (ophost) the last batch info of a bridge equals the config's batch info
+// - SetBatchInfo and the config update are performed together by CreateBridge / UpdateBatchInfo.
+var pinnedRelationalRejections = map[string]map[string]bool{
+	"ophost": {
+		"data.Bridges[#].BatchInfos[(builtin.len(data.Bridges[#].BatchInfos) - 1)].BatchInfo {<,>} data.Bridges[#].BridgeConfig.BatchInfo": true,
+	},
+	"opchild": {},
 }
